@@ -47,8 +47,10 @@ func TestMain(m *testing.M) {
 		rec = evid.New("C11")
 	}
 	rec.Rule("native fuzzing: cases = inputs executed by go's coverage-guided fuzzer on the target (entry point byte, module byte, input bytes), seeded with all valid/signed base artefacts and saved crashers; oracle = no panic in the calling goroutine (site not listed), worker process alive, allocation <= 96 MiB + 512 x input, CPU <= 15 s + 20 ms/KiB; non-trivial = input the parser did not reject outright at type detection (result ok, or an error other than an unknown-type refusal); distinct = hash of (entry, module, input)")
-	lim := &syscall.Rlimit{Cur: 8 << 30, Max: 8 << 30}
-	syscall.Setrlimit(syscall.RLIMIT_AS, lim)
+	if isWorker {
+		lim := &syscall.Rlimit{Cur: 6 << 30, Max: 6 << 30}
+		syscall.Setrlimit(syscall.RLIMIT_AS, lim)
+	}
 	runtime.MemProfileRate = 256 << 10
 	var err error
 	// every process (coordinator and workers) needs its own configuration directory
@@ -130,6 +132,13 @@ func FuzzEntry(f *testing.F) {
 		entry := c11entry.Entries[int(e)%len(c11entry.Entries)]
 		mname := modules[int(mi)%len(modules)]
 		if len(data) > 1<<20 {
+			return
+		}
+		if mname == "rpm" {
+			// every failure behind this module is a listed finding inside the third-party RPM
+			// reader (multi-gigabyte allocations included): the structure-aware search keeps
+			// probing it inside its capped child, the native campaign spends its time elsewhere
+			rec.Excluded("C11:rpm module not fuzzed natively (listed go-rpmutils findings)")
 			return
 		}
 		p := filepath.Join(workDir, "in.bin")
